@@ -32,9 +32,13 @@ inductive Node
   | dir (dev ino : Nat) (kids : List (Str × Node))
   | special (dev : Nat)        -- FIFO, socket, device node: exists, is not a regular file
   | dangling                   -- a symlink whose target does not exist
+  /-- an object that a directory listing shows (as a directory iff `asDir`) but on
+      which every open, stat or scandir fails with errno `code` (permission denied,
+      I/O error, ...); everything beneath it fails the same way -/
+  | unreadable (code : Nat) (asDir : Bool)
 deriving Repr, Inhabited
 
-inductive Errno | ENOENT | ENOTDIR | EISDIR | other
+inductive Errno | ENOENT | ENOTDIR | EISDIR | other | code (n : Nat)
 deriving DecidableEq, Repr
 
 /-- outcomes other than a plain result -/
@@ -60,6 +64,7 @@ inductive Obj
   | file (m : FileMeta)
   | dir (dev ino : Nat) (kids : List (Str × Node))
   | special (dev : Nat)
+  | fault (code : Nat)                    -- any other errno, from every call on the path
 deriving Repr, Inhabited
 
 def Node.child (kids : List (Str × Node)) (nm : Str) : Option Node :=
@@ -72,6 +77,7 @@ def Node.resolve : Node → List Str → Option Obj
   | .dir d i ks, [] => some (.dir d i ks)
   | .special d, [] => some (.special d)
   | .dangling, _ => some .absent
+  | .unreadable c _, _ => some (if c == 2 then .absent else .fault c)
   | n, c :: rest =>
     if c.isEmpty || c == [46] then n.resolve rest
     else if c == [46, 46] then none
